@@ -125,6 +125,11 @@ def main(argv=None):
                             else: failures.append((name, f))
         for (fname, k_, props_) in g.missing:
             if pid in props_: soft.append((name, k_, 'contracted function no longer exists'))
+        if g.new_constructs:
+            # a failed proof in a function that newly uses library constructs with weak or no specification is not evidence of a violation
+            moved = [(n_, f_) for (n_, f_) in failures if n_ == name and f_.owner in g.new_constructs]
+            failures = [(n_, f_) for (n_, f_) in failures if not (n_ == name and f_.owner in g.new_constructs)]
+            soft += [(name, f_.owner, 'the function now uses library constructs whose specifications are too weak to carry the proof (%s); failed: %s' % (', '.join(g.new_constructs[f_.owner][:5]), f_.ident()[:100])) for (_, f_) in moved]
         if g.renamed:
             moved = [(n_, f_) for (n_, f_) in failures if n_ == name and f_.owner in g.renamed]
             failures = [(n_, f_) for (n_, f_) in failures if not (n_ == name and f_.owner in g.renamed)]
